@@ -169,6 +169,38 @@ func HarnessC05Conc(st any) {
 		sym.Assert(!sawChild || sawMarker, "a reader never sees a later write of a transaction without its earlier ones")
 		sym.Assert(r.Has(parent.Method, child) && r.Has("POST", "/marker"), "the transaction is committed")
 		sym.Cover("update+write-below||reader")
+	case 7: // Truncate(method) + re-registration in one transaction || reader
+		var target R
+		for _, rt := range s.set.Routes {
+			if rt.Pattern[0] == '/' {
+				target = rt
+			}
+		}
+		if target.Pattern == "" {
+			return
+		}
+		has, lenOK := true, true
+		sym.Go(func() {
+			_ = r.Updates(func(txn *fox.Txn) error {
+				if err := txn.Truncate(target.Method); err != nil {
+					return err
+				}
+				for _, rt := range s.set.Routes {
+					if _, err := txn.Handle(rt.Method, rt.Pattern, noopHandler); err != nil {
+						return err
+					}
+				}
+				return nil
+			})
+		})
+		sym.Go(func() {
+			has = r.Has(target.Method, target.Pattern)
+			lenOK = r.Len() == base
+		})
+		sym.Join()
+		sym.Assert(has && lenOK, "a reader never sees the truncated intermediate state of a transaction")
+		sym.Assert(r.Len() == base && r.Has(target.Method, target.Pattern), "the transaction is committed")
+		sym.Cover("truncate+refill||reader")
 	case 5: // aborted transaction || reader
 		var saw bool
 		sym.Go(func() {
